@@ -75,6 +75,22 @@ func Harness_C18_L2_MsgStep() {
 	twice18(ctx, fn)
 }
 
+// a deposit whose hook transaction carries two messages of other modules: what the hook does may depend on the
+// deposit, the state and the handlers' outcomes, never on the node executing it (wall clock, scheduling)
+func Harness_C18_L2_HookStep() {
+	paramsBounds()
+	verifConfig("len:BridgeExecutors", 1)
+	verifConfig("maporder", 1)
+	verifConfig("hook.clean", 1) // bound: the hook transaction decodes and passes the ante chain
+	verifConfig("hookmsgs", 2)
+	k, ms, ctx := setup()
+	req := symFinalizeDeposit()
+	verifAssume(req.Sequence == k.nextL1(ctx) && k.isExecutor(ctx, req.Sender))
+	verifAssume(req.Validate(k.authKeeper.AddressCodec()) == nil && req.Amount.Amount.IsPositive())
+	fn := func(c sdk.Context) (any, error) { return ms.FinalizeTokenDeposit(c, req) }
+	twice18(ctx, fn)
+}
+
 // end of block: the validator updates handed to consensus, in order
 func Harness_C18_L2_BlockValidatorUpdates() {
 	c13Bounds()
